@@ -1043,7 +1043,10 @@ impl<K: Eq, V, const N: usize> SmallMap<K, V, N> {
         let mut j = 0;
         while j < N {
             if self.slots[j].is_none() {
-                self.slots[j] = Some((k, v));
+                // the cell holds None: write without running drop glue for the old value (a
+                // plain assignment makes CBMC explore K's and V's drop glue on a value it
+                // cannot see is None: 18 GB for a cell holding a oneshot::Sender)
+                unsafe { std::ptr::write(&mut self.slots[j], Some((k, v))) };
                 return None;
             }
             j += 1;
@@ -1300,3 +1303,472 @@ impl<T: Ord> BTreeSet<T> {
         self.slots.iter().filter_map(|c| c.as_ref())
     }
 }
+
+// ---------------------------------------------------------------------------
+// boxed::HashMap<K, V>: the same assumed finite-map contract for maps whose VALUES ARE
+// LARGE (kad MemoryStore: `SmallVec<[ProviderRecord; 20]>` is 3 KB per cell).  Every
+// occupied cell lives in its own heap object (`Option<Box<(K, V)>>`), so an empty cell
+// is a null pointer and moving the map moves CAP pointers.  Measured reason (C41):
+// with the inline-cell HashMap above, building an EMPTY MemoryStore and forgetting it
+// already cost 65-85 s of symbolic execution.  No symbolic indexing: cells are
+// addressed through a case split on the (possibly symbolic) search result.
+// API subset: what kad's record/store/memory.rs and its harness use.
+pub mod boxed {
+    use super::{overflow, CAP};
+    use std::marker::PhantomData;
+
+    pub struct HashMap<K, V, S = ()> {
+        pub slots: [Option<Box<(K, V)>>; CAP],
+        _s: PhantomData<S>,
+    }
+    impl<K, V, S> Default for HashMap<K, V, S> {
+        fn default() -> Self {
+            HashMap { slots: [None, None, None, None], _s: PhantomData }
+        }
+    }
+    fn cell_mut<X>(slots: &mut [Option<X>; CAP], i: usize) -> &mut Option<X> {
+        match i {
+            0 => &mut slots[0],
+            1 => &mut slots[1],
+            2 => &mut slots[2],
+            3 => &mut slots[3],
+            _ => overflow(),
+        }
+    }
+    fn cell<X>(slots: &[Option<X>; CAP], i: usize) -> &Option<X> {
+        match i {
+            0 => &slots[0],
+            1 => &slots[1],
+            2 => &slots[2],
+            3 => &slots[3],
+            _ => overflow(),
+        }
+    }
+    impl<K: Eq, V, S> HashMap<K, V, S> {
+        pub fn new() -> Self {
+            Self::default()
+        }
+        pub fn len(&self) -> usize {
+            let mut n = 0;
+            let mut i = 0;
+            while i < CAP {
+                if self.slots[i].is_some() {
+                    n += 1;
+                }
+                i += 1;
+            }
+            n
+        }
+        pub fn is_empty(&self) -> bool {
+            self.len() == 0
+        }
+        fn find(&self, k: &K) -> Option<usize> {
+            let mut i = 0;
+            while i < CAP {
+                if let Some(b) = &self.slots[i] {
+                    if b.0 == *k {
+                        return Some(i);
+                    }
+                }
+                i += 1;
+            }
+            None
+        }
+        fn free(&self) -> usize {
+            let mut i = 0;
+            while i < CAP {
+                if self.slots[i].is_none() {
+                    return i;
+                }
+                i += 1;
+            }
+            overflow()
+        }
+        pub fn get(&self, k: &K) -> Option<&V> {
+            match self.find(k) {
+                Some(i) => cell(&self.slots, i).as_ref().map(|b| &b.1),
+                None => None,
+            }
+        }
+        pub fn get_mut(&mut self, k: &K) -> Option<&mut V> {
+            match self.find(k) {
+                Some(i) => cell_mut(&mut self.slots, i).as_mut().map(|b| &mut b.1),
+                None => None,
+            }
+        }
+        pub fn contains_key(&self, k: &K) -> bool {
+            self.find(k).is_some()
+        }
+        pub fn insert(&mut self, k: K, v: V) -> Option<V> {
+            match self.find(&k) {
+                Some(i) => {
+                    let b = cell_mut(&mut self.slots, i).as_mut().unwrap();
+                    Some(std::mem::replace(&mut b.1, v))
+                }
+                None => {
+                    let i = self.free();
+                    *cell_mut(&mut self.slots, i) = Some(Box::new((k, v)));
+                    None
+                }
+            }
+        }
+        pub fn remove(&mut self, k: &K) -> Option<V> {
+            match self.find(k) {
+                Some(i) => cell_mut(&mut self.slots, i).take().map(|b| (*b).1),
+                None => None,
+            }
+        }
+        pub fn retain(&mut self, mut f: impl FnMut(&K, &mut V) -> bool) {
+            let mut i = 0;
+            while i < CAP {
+                let keep = match &mut self.slots[i] {
+                    Some(b) => {
+                        let (k, v) = &mut **b;
+                        f(k, v)
+                    }
+                    None => true,
+                };
+                if !keep {
+                    self.slots[i] = None;
+                }
+                i += 1;
+            }
+        }
+        pub fn values(&self) -> hash_map::Values<'_, K, V> {
+            hash_map::Values { slots: &self.slots, next: 0 }
+        }
+        pub fn entry(&mut self, k: K) -> hash_map::Entry<'_, K, V> {
+            match self.find(&k) {
+                Some(i) => hash_map::Entry::Occupied(hash_map::OccupiedEntry { slot: cell_mut(&mut self.slots, i), key: k }),
+                None => {
+                    let i = self.free();
+                    hash_map::Entry::Vacant(hash_map::VacantEntry { slot: cell_mut(&mut self.slots, i), key: k })
+                }
+            }
+        }
+    }
+    pub mod hash_map {
+        use super::CAP;
+        pub use super::HashMap;
+        pub enum Entry<'a, K, V> {
+            Occupied(OccupiedEntry<'a, K, V>),
+            Vacant(VacantEntry<'a, K, V>),
+        }
+        pub struct OccupiedEntry<'a, K, V> {
+            pub(super) slot: &'a mut Option<Box<(K, V)>>,
+            pub(super) key: K,
+        }
+        pub struct VacantEntry<'a, K, V> {
+            pub(super) slot: &'a mut Option<Box<(K, V)>>,
+            pub(super) key: K,
+        }
+        impl<'a, K, V> Entry<'a, K, V> {
+            pub fn or_insert_with(self, f: impl FnOnce() -> V) -> &'a mut V {
+                match self {
+                    Entry::Occupied(e) => e.into_mut(),
+                    Entry::Vacant(e) => e.insert(f()),
+                }
+            }
+            pub fn or_default(self) -> &'a mut V
+            where
+                V: Default,
+            {
+                self.or_insert_with(V::default)
+            }
+        }
+        impl<'a, K, V> OccupiedEntry<'a, K, V> {
+            pub fn key(&self) -> &K {
+                &self.key
+            }
+            pub fn get(&self) -> &V {
+                &self.slot.as_ref().unwrap().1
+            }
+            pub fn get_mut(&mut self) -> &mut V {
+                &mut self.slot.as_mut().unwrap().1
+            }
+            pub fn into_mut(self) -> &'a mut V {
+                &mut self.slot.as_mut().unwrap().1
+            }
+            pub fn insert(&mut self, v: V) -> V {
+                std::mem::replace(&mut self.slot.as_mut().unwrap().1, v)
+            }
+            pub fn remove(self) -> V {
+                (*self.slot.take().unwrap()).1
+            }
+        }
+        impl<'a, K, V> VacantEntry<'a, K, V> {
+            pub fn key(&self) -> &K {
+                &self.key
+            }
+            pub fn insert(self, v: V) -> &'a mut V {
+                *self.slot = Some(Box::new((self.key, v)));
+                &mut self.slot.as_mut().unwrap().1
+            }
+        }
+        /// slot order (harnesses place entries in arbitrary slots)
+        pub struct Values<'a, K, V> {
+            pub(super) slots: &'a [Option<Box<(K, V)>>; CAP],
+            pub(super) next: usize,
+        }
+        impl<'a, K, V> Iterator for Values<'a, K, V> {
+            type Item = &'a V;
+            fn next(&mut self) -> Option<&'a V> {
+                while self.next < CAP {
+                    let i = self.next;
+                    self.next += 1;
+                    if let Some(b) = &self.slots[i] {
+                        return Some(&b.1);
+                    }
+                }
+                None
+            }
+        }
+    }
+}
+
+// ---------------------------------------------------------------------------
+// ScanMap<K, V, N>: SmallMap's assumed finite-map contract with EAGER iterators.
+// Why (measured, units/C47): `slots.iter().filter_map(..)` (core::slice::Iter =
+// pointer arithmetic over cells of several hundred bytes) under nested
+// `.values().map(|m| m.values().filter(..).count()).sum()` kept CBMC's symbolic
+// execution busy for > 300 s before any formula was built.  Here `iter/keys/values`
+// collect the N cell references with constant indices into a by-value array, and the
+// consuming adaptors the verified texts use (`fold` — reached by `count`, `sum`,
+// `filter(..).count()`, `map(..).sum()` — and `find`) are one pass with a constant
+// index per unrolled step, so no position ever becomes a symbolic pointer offset.
+// `next` is kept (slot order) for `for` loops.  Iteration is in slot order; harnesses
+// place entries in arbitrary slots, so no proof depends on the order.
+pub struct ScanMap<K, V, const N: usize> {
+    pub slots: [Option<(K, V)>; N],
+}
+impl<K, V, const N: usize> Default for ScanMap<K, V, N> {
+    fn default() -> Self {
+        ScanMap { slots: [const { None }; N] }
+    }
+}
+pub struct Scan<T, const N: usize> {
+    items: [Option<T>; N],
+    pos: usize,
+}
+impl<T, const N: usize> Iterator for Scan<T, N> {
+    type Item = T;
+    fn next(&mut self) -> Option<T> {
+        let mut out = None;
+        let mut i = 0;
+        while i < N {
+            if out.is_none() && i >= self.pos {
+                if let Some(x) = self.items[i].take() {
+                    out = Some(x);
+                    self.pos = i + 1;
+                }
+            }
+            i += 1;
+        }
+        if out.is_none() {
+            self.pos = N;
+        }
+        out
+    }
+    fn fold<B, F: FnMut(B, T) -> B>(mut self, init: B, mut f: F) -> B {
+        let mut acc = init;
+        let mut i = 0;
+        while i < N {
+            if i >= self.pos {
+                if let Some(x) = self.items[i].take() {
+                    acc = f(acc, x);
+                }
+            }
+            i += 1;
+        }
+        acc
+    }
+    fn count(self) -> usize {
+        self.fold(0, |n, _| n + 1)
+    }
+    fn find<P: FnMut(&T) -> bool>(&mut self, mut p: P) -> Option<T> {
+        let mut out = None;
+        let mut i = 0;
+        while i < N {
+            if out.is_none() && i >= self.pos {
+                if let Some(x) = self.items[i].take() {
+                    if p(&x) {
+                        out = Some(x);
+                        self.pos = i + 1;
+                    }
+                }
+            }
+            i += 1;
+        }
+        if out.is_none() {
+            self.pos = N;
+        }
+        out
+    }
+}
+impl<K: Eq, V, const N: usize> ScanMap<K, V, N> {
+    pub fn new() -> Self {
+        Self::default()
+    }
+    pub fn from_cells(slots: [Option<(K, V)>; N]) -> Self {
+        ScanMap { slots }
+    }
+    pub fn len(&self) -> usize {
+        let mut n = 0;
+        let mut i = 0;
+        while i < N {
+            if self.slots[i].is_some() {
+                n += 1;
+            }
+            i += 1;
+        }
+        n
+    }
+    pub fn is_empty(&self) -> bool {
+        self.len() == 0
+    }
+    pub fn contains_key(&self, k: &K) -> bool {
+        self.get(k).is_some()
+    }
+    pub fn get(&self, k: &K) -> Option<&V> {
+        let mut out = None;
+        let mut i = 0;
+        while i < N {
+            if let Some((kk, v)) = &self.slots[i] {
+                if out.is_none() && kk == k {
+                    out = Some(v);
+                }
+            }
+            i += 1;
+        }
+        out
+    }
+    pub fn get_mut(&mut self, k: &K) -> Option<&mut V> {
+        let mut i = 0;
+        while i < N {
+            let hit = match &self.slots[i] {
+                Some((kk, _)) => kk == k,
+                None => false,
+            };
+            if hit {
+                return self.slots[i].as_mut().map(|(_, v)| v);
+            }
+            i += 1;
+        }
+        None
+    }
+    pub fn insert(&mut self, k: K, v: V) -> Option<V> {
+        let mut i = 0;
+        while i < N {
+            let hit = match &self.slots[i] {
+                Some((kk, _)) => *kk == k,
+                None => false,
+            };
+            if hit {
+                return self.slots[i].replace((k, v)).map(|(_, old)| old);
+            }
+            i += 1;
+        }
+        let mut j = 0;
+        while j < N {
+            if self.slots[j].is_none() {
+                self.slots[j] = Some((k, v));
+                return None;
+            }
+            j += 1;
+        }
+        overflow()
+    }
+    pub fn remove(&mut self, k: &K) -> Option<V> {
+        let mut i = 0;
+        while i < N {
+            let hit = match &self.slots[i] {
+                Some((kk, _)) => kk == k,
+                None => false,
+            };
+            if hit {
+                return self.slots[i].take().map(|(_, v)| v);
+            }
+            i += 1;
+        }
+        None
+    }
+    pub fn iter(&self) -> Scan<(&K, &V), N> {
+        let mut items = [const { None }; N];
+        let mut i = 0;
+        while i < N {
+            items[i] = self.slots[i].as_ref().map(|(k, v)| (k, v));
+            i += 1;
+        }
+        Scan { items, pos: 0 }
+    }
+    pub fn keys(&self) -> Scan<&K, N> {
+        let mut items = [const { None }; N];
+        let mut i = 0;
+        while i < N {
+            items[i] = self.slots[i].as_ref().map(|(k, _)| k);
+            i += 1;
+        }
+        Scan { items, pos: 0 }
+    }
+    pub fn values(&self) -> Scan<&V, N> {
+        let mut items = [const { None }; N];
+        let mut i = 0;
+        while i < N {
+            items[i] = self.slots[i].as_ref().map(|(_, v)| v);
+            i += 1;
+        }
+        Scan { items, pos: 0 }
+    }
+    /// same entry types as the HashMap shim (they only hold the cell reference)
+    pub fn entry(&mut self, k: K) -> hash_map::Entry<'_, K, V> {
+        let mut i = 0;
+        while i < N {
+            let hit = match &self.slots[i] {
+                Some((kk, _)) => *kk == k,
+                None => false,
+            };
+            if hit {
+                return hash_map::Entry::Occupied(hash_map::OccupiedEntry { slot: &mut self.slots[i], key: k });
+            }
+            i += 1;
+        }
+        let mut j = 0;
+        while j < N {
+            if self.slots[j].is_none() {
+                return hash_map::Entry::Vacant(hash_map::VacantEntry { slot: &mut self.slots[j], key: k });
+            }
+            j += 1;
+        }
+        overflow()
+    }
+    pub fn retain(&mut self, mut f: impl FnMut(&K, &mut V) -> bool) {
+        let mut i = 0;
+        while i < N {
+            let keep = match &mut self.slots[i] {
+                Some((k, v)) => f(k, v),
+                None => true,
+            };
+            if !keep {
+                self.slots[i] = None;
+            }
+            i += 1;
+        }
+    }
+    pub fn clear(&mut self) {
+        let mut i = 0;
+        while i < N {
+            self.slots[i] = None;
+            i += 1;
+        }
+    }
+}
+impl<'a, K: Eq, V, const N: usize> IntoIterator for &'a ScanMap<K, V, N> {
+    type Item = (&'a K, &'a V);
+    type IntoIter = Scan<(&'a K, &'a V), N>;
+    fn into_iter(self) -> Self::IntoIter {
+        self.iter()
+    }
+}
+/// `use crate::verif_shims::{ScanHashMap as HashMap, hash_map}` retargets a file whose maps
+/// are iterated inside the verified text (capacity CAP, like the HashMap shim).
+pub type ScanHashMap<K, V> = ScanMap<K, V, CAP>;
